@@ -274,4 +274,11 @@ def run(F, R, tier):
     R.ob("representation", "encode_utf8 emits the string's bytes (String::as_bytes)", "std::string::String::as_bytes" in callees("encode_utf8"), "")
     R.ob("representation", "chars splits by char (str::chars)", "core::str::<impl str>::chars" in callees("chars"), "")
     R.ob("representation", "join appends chars (String::push)", "std::string::String::push" in callees("join"), "")
+    # int(str(n)) == n and float(str(x)) == x need the text to be parsed in the number's own type: a detour through
+    # another numeric type (an i64 read as f64 and cast back) loses integers above 2^53
+    for fn, ty in (("int", "i64"), ("float", "f64")):
+        g = F.fn(reg.get(fn, ""))
+        if R.anchor("builtin %s" % fn, g):
+            ps = [c.get("ty", "") for c in H.walk(H.body_of(g)) if c.get("k") == "mcall" and (c.get("callee") or "").endswith("::parse")]
+            R.ob("representation", "%s(Str) parses the text as %s" % (fn, ty), len(ps) == 1 and ps[0].startswith("std::result::Result<%s," % ty), str(ps), F.loc(g))
     R.ob("representation", "decode_utf8 uses String::from_utf8", "std::string::String::from_utf8" in callees("decode_utf8"), "")
